@@ -68,10 +68,22 @@ def flat(parts):
     return out
 
 
-def check_image(task, blob, loads, entry, tag, cdesc, check_fetch=True):
-    """loads: list of (vaddr, file offset, filesz, memsz). yields (what, detail)"""
+def check_image(task, blob, loads, entry, tag, cdesc, check_fetch=True, slots=None):
+    """loads: list of (vaddr, file offset, filesz, memsz). yields (what, detail).
+    slots: {address: (size in bytes, external symbol name)} -- import address table entries, which the loader
+    binds to external symbols; they are checked separately and masked in the byte comparison"""
     out = []
     mm = task.state.mmap
+    for a, (n, name) in sorted((slots or {}).items()):
+        try:
+            r = mm.read(a, n)
+        except Exception as ex:
+            out.append(("iat-exc:%s@%s" % exc_sig(ex), "reading the import slot %#x raised %r" % (a, ex)))
+            continue
+        x = r[0] if len(r) == 1 else None
+        if x is None or not getattr(x, "_is_ext", False) or x.size != 8 * n or str(x.ref) != name:
+            out.append(("iat", "import slot %#x holds %r, the import tables bind it to external symbol %r" % (a, [str(q) for q in r], name)))
+            break
     for (va, off, fsz, msz) in loads:
         try:
             got = flat(mm.read(va, msz)) if msz else []
@@ -79,6 +91,10 @@ def check_image(task, blob, loads, entry, tag, cdesc, check_fetch=True):
             out.append(("read-exc:%s@%s" % exc_sig(ex), "reading [%#x,+%#x) raised %r" % (va, msz, ex)))
             continue
         want = list(blob[off:off + fsz]) + [0] * (msz - fsz)
+        for a, (n, name) in (slots or {}).items():
+            for j in range(n):
+                if 0 <= a + j - va < min(len(got), len(want)):
+                    got[a + j - va] = want[a + j - va] = "slot"
         if got != want:
             k = next((j for j in range(min(len(got), len(want))) if got[j] != want[j]), min(len(got), len(want)))
             where = "file-backed" if k < fsz else "zero-tail"
@@ -150,11 +166,12 @@ def other_unit(kind):
         fails.append(Failure(sig, what, cdesc).to_json())
     if kind == "pe":
         for plus in (False, True):
-            for nsec in (1, 2, 3):
-                blob = c14.pe_build(plus, nsec, 16, 1)
+            for nsec, imp in [(1, None), (2, None), (3, None)] + [(ns, i) for ns in (2, 3) for i in sorted(c14.IMPORT_MENUS)]:
+                blob = c14.pe_build(plus, nsec, 16, 1, 0, imp)
                 ref = c14.pe_read(blob)
-                lab = "PE32%s/%dsec" % ("+" if plus else "", nsec)
+                lab = "PE32%s/%dsec%s" % ("+" if plus else "", nsec, "/imports:" + imp if imp else "")
                 cdesc = {"kind": "pe", "label": lab}
+                slots = dict((a, (8 if plus else 4, nm)) for a, nm in c14.pe_read_imports(blob).items())
                 n += 1
                 try:
                     task = amoco.load_program(blob)
@@ -166,7 +183,7 @@ def other_unit(kind):
                     for s in ref["secs"]:
                         fsz = min(s["SizeOfRawData"], s["VirtualSize"])
                         loads.append((base + s["RVA"], s["PointerToRawData"], fsz, s["VirtualSize"]))
-                    for what, detail in check_image(task, blob, loads, base + ref["Opt"]["AddressOfEntryPoint"], lab, cdesc):
+                    for what, detail in check_image(task, blob, loads, base + ref["Opt"]["AddressOfEntryPoint"], lab, cdesc, slots=slots):
                         F(("pe", lab.split("/")[0], what), "%s: %s" % (lab, detail), cdesc)
                 except Exception as ex:
                     F(("pe", lab.split("/")[0], "load-exc:%s@%s" % exc_sig(ex)), "%s: load_program raised %r" % (lab, ex), cdesc)
